@@ -13,6 +13,9 @@ import DracoProofs.EbRoundtripExample
 import DracoProofs.EbConnNoOpp
 import DracoProofs.EbFinal3
 import DracoProofs.EbSplitFreeLink
+import DracoProofs.EbFinal6
+import DracoProofs.EbStartFaceCount
+import DracoProofs.EbCTIsoComplete
 /-
   C01 (staging) — facts about the Edgebreaker mesh decoder model (DracoModel/Eb*.lean).
   The model is tied to the real decoder by the correspondence of C01 (tools/props/ebcases.py);
@@ -906,6 +909,141 @@ example : ctIso ⟨#[0, 1, 2], #[inv, inv, inv], #[0, 1, 2], 0, 0⟩ #[1] 1 #[7,
   simp [ctIso, CT.numCorners, CT.numVertices, Id.run, Std.Legacy.Range.forIn_eq_forIn_range', Std.Legacy.Range.size,
     List.range'_succ, inv, Eb.nextC, Eb.prevC, bind, pure]
 
+section LinkBase
+open Draco Draco.SeqEnc DecM Draco.EbEnc
+open Draco.Eb hiding iabs nextC prevC
+open Draco.EbEnc.PosAgreeP Draco.EbEnc.Tuples Draco.EbEnc.FaceCorr Draco.EbEnc.PlanSettingP Draco.EbEnc.Final2 Draco.EbEnc.Final3
+  Draco.EbEnc.Final4 Draco.EbEnc.Final5 Draco.EbEnc.Final6 Draco.EbEnc.EncCounts Draco.EbEnc.ConnExample
+
+/-- (b'') **eb_roundtrip_of_link_base_partial** — the stream-level round trip for the class "EVERY CONTROLLER IS ON THE BASE
+    TABLE" (`hclass`: `onAttTable = false` for every controller output — single connectivity, position-only geometries,
+    attributes without interior seams; either traversal method): compared with `eb_roundtrip_of_link_partial` there is NO
+    `hseq` (the decoder's sequencers and `UpdatePointToAttributeIndexMapping` SUCCEED: success transfer from the encoder's
+    traversal, `depthFirst_success_transfer` / `maxPredictionDegree_success_transfer`, `pointToValueMap_success`) and NO
+    `hrows` (the row correspondence is derived from the link for every item on the base table under a single connectivity and
+    for the POSITION attribute otherwise; `hrest` asks for the `TupleSetup` of the remaining items only and is vacuous under a
+    single connectivity and for position-only geometries).  Hypotheses left: the run (`henc`, `hmd`), the domain (`hatt`,
+    `huid`, `hn128`, `hbytes`, `hgv`), the CONNECTIVITY LINK (`hconn`, `hiso`, `hmatts`), the decoder-table facts `DecBaseOK`
+    (vertex ids index `vc`, `IsOnBoundary` agrees, points refine vertices) and `DecSeqOK` (`EbDecSeqOK.decSeqOK_of_stages`
+    derives it from the decoder's stages), `hvals` (value blocks), `hrest`. -/
+theorem eb_roundtrip_of_link_base_partial (ch : EbChoices) (g : Geometry) (md : Option GeometryMetadata) (o : EbOpts)
+    (enc : Encoded) (henc : encodeEdgebreaker ch g md o = .ok enc) (hmd : ∀ m, md = some m → m.WF')
+    (hatt : ∀ a, a < g.atts.toArray.size → EbAttOK (g.atts.toArray[a]!) (o.base.att a))
+    (huid : (g.atts.map (·.uniqueId)).Nodup) (hn128 : g.atts.length ≤ 128)
+    (hbytes : ∀ a ∈ g.atts, IsBytes a.values) (hgv : g.valid = true)
+    (mesh : Mesh)
+    (hconn : ∀ coder, traversalCoder o g.faces.length = some coder →
+      Runs decodeConnectivity 514 ([coder] ++ enc.conn.bytes) mesh 514)
+    (hiso : CTIso enc.conn.ct enc.conn.processed mesh.numFaces mesh.c2v mesh.opp)
+    (hmatts : mesh.atts.size = enc.conn.atts.size)
+    (hD : DecBaseOK enc mesh) (hS : DecSeqOK mesh)
+    (hclass : ∀ c ∈ enc.couts.toList, (enc.controllers[c.ctrl]!).onAttTable = false)
+    (hvals : ∀ sides, sidesOfDecoder mesh enc.conn enc.controllers enc.couts.toList = .ok sides → ∀ (i k : Nat)
+      (hi : i < (planOf o g.atts.toArray enc.conn enc.controllers enc.couts.toList sides).length)
+      (hk : k < (planOf o g.atts.toArray enc.conn enc.controllers enc.couts.toList sides)[i].items.length),
+      ValuesOK mesh (planOf o g.atts.toArray enc.conn enc.controllers enc.couts.toList sides)[i]
+        (parentAt (planOf o g.atts.toArray enc.conn enc.controllers enc.couts.toList sides) i k)
+        (planOf o g.atts.toArray enc.conn enc.controllers enc.couts.toList sides)[i].items[k])
+    (hrest : ∀ sides, sidesOfDecoder mesh enc.conn enc.controllers enc.couts.toList = .ok sides →
+      ∀ c side it, (c, side) ∈ enc.couts.toList.zip sides → it ∈ c.items.toList →
+      ¬ (useSingleConnectivity o = true ∨
+        (((g.atts.toArray[(enc.controllers[c.ctrl]!).attIds[0]!]!).attType == posType) = true ∧
+         ((g.atts.toArray[it.attId]!).attType == posType) = true)) →
+      ∃ (dC : TView) (ψC : Nat → Nat) (np npD : Nat), dC.numFaces = mesh.numFaces ∧
+        TupleSetup (g.atts.toArray[it.attId]!) np (flattenFaces g.faces).toArray mesh.faces npD dC c.view
+          (phi enc.conn.processed) ψC side.1 c.seq side.2)
+    (extra : Bytes) :
+    ∃ sides, sidesOfDecoder mesh enc.conn enc.controllers enc.couts.toList = .ok sides ∧ ∃ st st',
+      decodeGeometry {} { rest := enc.bytes ++ extra } =
+        (some ⟨planGeometry {} mesh (planOf o g.atts.toArray enc.conn enc.controllers enc.couts.toList sides), md⟩, st) ∧
+      st.rest = extra ∧
+      decodeGeometry { skip := allTypes } { rest := enc.bytes ++ extra } =
+        (some ⟨planGeometry { skip := allTypes } mesh
+          (planOf o g.atts.toArray enc.conn enc.controllers enc.couts.toList sides), md⟩, st') ∧
+      st'.rest = extra ∧
+      Spec.checkCore .edgebreaker (quantReq g o.base) g
+        (planGeometry {} mesh (planOf o g.atts.toArray enc.conn enc.controllers enc.couts.toList sides))
+        (planGeometry { skip := allTypes } mesh
+          (planOf o g.atts.toArray enc.conn enc.controllers enc.couts.toList sides)) = true :=
+  Final6.eb_roundtrip_of_link_base'' ch g md o enc henc hmd hatt huid hn128 hbytes hgv mesh hconn hiso hmatts hD hS hclass
+    hvals hrest extra
+
+/-- non-vacuity: the one-triangle stream; `DecBaseOK`, `DecSeqOK`, `hclass` proved, `hrest` vacuous, only the value-block
+    condition `exHvals` is an evaluated input -/
+example (extra : Bytes) :
+    ∃ st st',
+      decodeGeometry {} { rest := exBytes ++ extra } = (some ⟨planGeometry {} ConnExample.exMesh exPlan, none⟩, st) ∧ st.rest = extra ∧
+      decodeGeometry { skip := allTypes } { rest := exBytes ++ extra } =
+        (some ⟨planGeometry { skip := allTypes } ConnExample.exMesh exPlan, none⟩, st') ∧ st'.rest = extra ∧
+      Spec.checkCore .edgebreaker (quantReq exG exO.base) exG (planGeometry {} ConnExample.exMesh exPlan)
+        (planGeometry { skip := allTypes } ConnExample.exMesh exPlan) = true := by
+  have hiso : CTIso exEnc.conn.ct exEnc.conn.processed ConnExample.exMesh.numFaces ConnExample.exMesh.c2v ConnExample.exMesh.opp :=
+    ctIso_sound _ _ _ _ _ (by decide +kernel) (by decide +kernel) (by decide +kernel) exIso
+  have hseq0 : sidesOfDecoder ConnExample.exMesh exEnc.conn exEnc.controllers exEnc.couts.toList = .ok exSides := by
+    have h : (match sidesOfDecoder ConnExample.exMesh exEnc.conn exEnc.controllers exEnc.couts.toList with
+        | .ok s => decide (s = exSides) | .error _ => false) = true := by
+      decide +kernel
+    split at h
+    · rename_i s hs; rw [hs, of_decide_eq_true h]
+    · exact absurd h (by decide)
+  have hsides : ∀ sides, sidesOfDecoder ConnExample.exMesh exEnc.conn exEnc.controllers exEnc.couts.toList = .ok sides →
+      sides = exSides := by
+    intro sides h
+    rw [hseq0] at h
+    exact (Except.ok.inj h).symm
+  have hD : DecBaseOK exEnc ConnExample.exMesh :=
+    { hdv := by decide +kernel
+      hbd := by
+        intro d hd
+        have h3 : d < 3 := by
+          have : ConnExample.exMesh.numFaces = 1 := by decide +kernel
+          omega
+        have : d = 0 ∨ d = 1 ∨ d = 2 := by omega
+        rcases this with rfl | rfl | rfl <;> exact ⟨true, by decide +kernel, by decide +kernel⟩
+      refines := by
+        intro c c' hc hc'
+        have hn : (baseViewD ConnExample.exMesh.numFaces ConnExample.exMesh.c2v ConnExample.exMesh.opp ConnExample.exMesh.vc).numFaces = 1 := by decide +kernel
+        rw [hn] at hc hc'
+        have h1 : c = 0 ∨ c = 1 ∨ c = 2 := by omega
+        have h2 : c' = 0 ∨ c' = 1 ∨ c' = 2 := by omega
+        rcases h1 with rfl | rfl | rfl <;> rcases h2 with rfl | rfl | rfl <;> decide +kernel }
+  have hS : DecSeqOK ConnExample.exMesh :=
+    { hNV := by decide +kernel, hnp := by decide +kernel, hfa := by decide +kernel, hfp := by decide +kernel,
+      hcov := by decide +kernel }
+  have hbytes : ∀ a ∈ exG.atts, IsBytes a.values := by
+    have hb : (exG.atts.all fun a => a.values.all fun b => decide (b < 256)) = true := by decide +kernel
+    intro a ha b hb'
+    have h1 := List.all_eq_true.mp hb a ha
+    have h2 := List.all_eq_true.mp h1 b hb'
+    simpa using h2
+  have hall : (exEnc.couts.toList.all fun c => c.items.toList.all fun it =>
+      ((exG.atts.toArray[(exEnc.controllers[c.ctrl]!).attIds[0]!]!).attType == posType) &&
+      ((exG.atts.toArray[it.attId]!).attType == posType)) = true := by decide +kernel
+  have hcl : (exEnc.couts.toList.all fun c => !(exEnc.controllers[c.ctrl]!).onAttTable) = true := by decide +kernel
+  obtain ⟨sides, hs, h⟩ := eb_roundtrip_of_link_base_partial ConnExample.exCh exG none exO exEnc exEncode (fun m h => by cases h) exHatt
+    exHuid (by decide +kernel) hbytes (by decide +kernel) ConnExample.exMesh exHconn hiso (by decide +kernel) hD hS
+    (by
+      intro c hc
+      have := List.all_eq_true.mp hcl c hc
+      simpa using this)
+    (by
+      intro sides hs
+      rw [hsides sides hs]
+      exact exHvals)
+    (by
+      intro sides hs c side it hz hit hn
+      exfalso
+      apply hn
+      right
+      have hc := (List.of_mem_zip hz).1
+      have h1 := List.all_eq_true.mp hall c hc
+      have h2 := List.all_eq_true.mp h1 it hit
+      simpa using h2) extra
+  rw [hsides sides hs, exEnc_bytes] at h
+  exact h
+
+end LinkBase
+
 section ConnectivityLink
 open Draco Draco.EbEnc
 open Draco.Eb hiding iabs nextC prevC
@@ -982,9 +1120,10 @@ example (ch : ConnChoices) : EbConnectivityRoundtrip ch false (triFaces 5) #[] :
     a successful `encodeConnectivity` (standard traversal, no attribute data, every encoder choice `ch`) whose symbols contain
     no S (`hnoS`; then no topology split event is recorded: `noS_of_main`) and whose start faces are all boundary starts
     (`hstart`) — i.e. components traversed with C / R / L / E only: strips, fans, discs —, inside the decoder's domain checks
-    (`hnf`, `hnv`, the edge-count check `hedge`), with one start-face flag per symbol E (`hE`; holds on every run, not yet
-    derived from the encoder's loops) ⇒ the decoder's connectivity stage reads exactly the encoder's bytes and rebuilds a
-    corner table ISOMORPHIC (`CTIso`) to the encoder's.  No hypothesis about running the decoder.  Proof: encoder trace
+    (`hnf`, `hnv`, the edge-count check `hedge`) ⇒ the decoder's connectivity stage reads exactly the encoder's bytes and
+    rebuilds a corner table ISOMORPHIC to the encoder's — both as the Prop `CTIso` and in the checker form `ctIso = true`
+    (checker completeness `CTIsoComplete.ctIso_complete`: `CTIso ⇒ ctIso = true`, no side condition).  No hypothesis about
+    running the decoder; "one start-face flag per symbol E" is proved (`StartFaceCount.hE_of_run`).  Proof: encoder trace
     (`EncTrace.trace_of_run`: timestamped invariant through the encoder's loops) → pure decoder simulation
     (`DecSim.inv_step`, `ctIso_of_inv`: the decoder's `opp` is the induced sub-table on the faces decoded so far) → monadic
     glue (`DecSim.connLoop_St`: `connLoop` on any reader state delivering the symbols returns the pure state) → stream level
@@ -993,14 +1132,15 @@ theorem eb_connectivity_roundtrip_splitfree_partial (ch : ConnChoices) (pf : Fac
     (h : encodeConnectivity ch false pf #[] = .ok conn)
     (hnoS : ∀ x, x ∈ conn.symbols.toList → x ≠ topoS)
     (hstart : ∀ b, b ∈ conn.startFaces.toList → b = false)
-    (hE : conn.startFaces.size = conn.symbols.toList.count 7)
     (hnf : conn.processed.size ≤ 2 ^ 21)
     (hnv : conn.ct.numVertices - conn.ct.numIsolated ≤ 3 * 2 ^ 21)
     (hedge : 3 * conn.processed.size / 2 ≤
       (conn.ct.numVertices - conn.ct.numIsolated) * (conn.ct.numVertices - conn.ct.numIsolated - 1) / 2) :
     ∃ mesh, Runs decodeConnectivity 514 ([0] ++ conn.bytes) mesh 514 ∧
-      CTIso conn.ct conn.processed mesh.numFaces mesh.c2v mesh.opp ∧ mesh.atts.size = conn.atts.size :=
-  SplitFreeLink.eb_connectivity_roundtrip_splitfree_closed ch pf conn h hnoS hstart hE hnf hnv hedge
+      ctIso conn.ct conn.processed mesh.numFaces mesh.c2v mesh.opp = true ∧
+      CTIso conn.ct conn.processed mesh.numFaces mesh.c2v mesh.opp ∧ mesh.atts.size = conn.atts.size := by
+  obtain ⟨mesh, h1, h2, h3⟩ := StartFaceCount.eb_connectivity_roundtrip_splitfree_closed' ch pf conn h hnoS hstart hnf hnv hedge
+  exact ⟨mesh, h1, CTIsoComplete.ctIso_complete h2, h2, h3⟩
 
 /-- a closed fan of four triangles around the interior vertex 0 (symbols C R R E) glued to nothing else -/
 def fan4 : Faces := #[(0, 1, 2), (0, 2, 3), (0, 3, 4), (0, 4, 1)]
@@ -1021,8 +1161,8 @@ theorem fan4Encode : encodeConnectivity exCh.conn false fan4 #[] = .ok fan4Conn 
 example : fan4Conn.symbols = #[0, 5, 5, 7] ∧ ∃ mesh, Runs decodeConnectivity 514 ([0] ++ fan4Conn.bytes) mesh 514 ∧
     CTIso fan4Conn.ct fan4Conn.processed mesh.numFaces mesh.c2v mesh.opp :=
   ⟨by decide +kernel, by
-    obtain ⟨mesh, h1, h2, _⟩ := eb_connectivity_roundtrip_splitfree_partial exCh.conn fan4 fan4Conn fan4Encode
-      (by decide +kernel) (by decide +kernel) (by decide +kernel) (by decide +kernel) (by decide +kernel) (by decide +kernel)
+    obtain ⟨mesh, h1, _, h2, _⟩ := eb_connectivity_roundtrip_splitfree_partial exCh.conn fan4 fan4Conn fan4Encode
+      (by decide +kernel) (by decide +kernel) (by decide +kernel) (by decide +kernel) (by decide +kernel)
     exact ⟨mesh, h1, h2⟩⟩
 
 end ConnectivityLink
